@@ -133,6 +133,13 @@ func ExecNL(op M) (res any) {
 	case "rootNodes":
 		return NodesJ(a.GetRootNodes())
 	case "match":
+		if k, ok := op["member"]; ok {
+			// the probe is the list's own node object (a caller matching a list against itself), not a
+			// separate object with the same content
+			if i := int(asInt(k)); i >= 0 && i < len(a.Nodes) && Equal(NodeJ(a.Nodes[i]), NodeJ(pn)) {
+				pn = a.Nodes[i]
+			}
+		}
 		n, err := a.GetMatchingNode(pn)
 		if err != nil {
 			if errors.Is(err, sbom.ErrorMoreThanOneMatch) {
